@@ -4,6 +4,7 @@ mod bk;
 mod chunker;
 mod common;
 mod members;
+mod sim;
 mod syncneeds;
 
 fn main() {
@@ -17,6 +18,11 @@ fn main() {
         match args[1].as_str() {
             "replay-bookkeeping" => bk::run(&args[2]).await,
             "replay-syncneeds" => syncneeds::run(&args[2]),
+            "sim-walk" => {
+                // sim-walk <seed> <nodes> <keys> <steps> <restart:0|1> <out.ndjson>
+                let p = |i: usize| args[i].parse::<u64>().unwrap();
+                sim::run_walk(p(2), p(3) as usize, p(4) as i64, p(5) as usize, p(6) == 1, &args[7]).await
+            }
             "replay-members" => members::run(&args[2]),
             "replay-chunker" => chunker::run_chunker(&args[2]),
             "replay-chunkrange" => chunker::run_chunkrange(&args[2]),
